@@ -1491,6 +1491,15 @@ def mkcomment(comment, width=72, start="$ ", surround=True):
     return s
 
 
+def _dmig_number(num):
+    """Format number for 16 character DMIG field"""
+    num_str = f"{num:16.9E}"
+    if len(num_str) > 16:
+        # negative number with 3-digit exponent: one less digit
+        num_str = f"{num:16.8E}"
+    return num_str
+
+
 @guitools.write_text_file
 def wtdmig(f, dct):
     """
@@ -1651,9 +1660,9 @@ def wtdmig(f, dct):
                     if num != 0.0:
                         gi, ci = rowids[row]
                         if mtype < 3:  # real
-                            num_str = f"{num:16.9E}"
+                            num_str = _dmig_number(num)
                         else:  # complex
-                            num_str = f"{num.real:16.9E}{num.imag:16.9E}"
+                            num_str = _dmig_number(num.real) + _dmig_number(num.imag)
                         if mtype & 1 == 0:  # if even
                             num_str = num_str.replace("E", "D")
                         f.write(f"{'*':<8s}{gi:16d}{ci:16d}{num_str:s}\n")
